@@ -152,8 +152,22 @@ func runGW(suite, tier string, seed uint64, out string, only int, trace bool, co
 // compareWithModel replays the stimuli of a history on the Lean model driver and compares, step by
 // step, observations and state snapshots. Returns the first disagreeing step (or -1).
 func compareWithModel(driver string, hr *historyResult) (int, string, string, error) {
+	// the iteration order of Go maps is a parameter of the model: any order that agrees counts
+	var step int
+	var impl, model string
+	var err error
+	for ord := 0; ord < 6; ord++ {
+		step, impl, model, err = compareWithModelOrd(driver, hr, ord)
+		if err != nil || step < 0 {
+			return step, impl, model, err
+		}
+	}
+	return step, impl, model, err
+}
+
+func compareWithModelOrd(driver string, hr *historyResult, ord int) (int, string, string, error) {
 	var in bytes.Buffer
-	fmt.Fprintf(&in, "gw-begin %d %d 1\n", hr.RefThr, hr.RstThr)
+	fmt.Fprintf(&in, "gw-begin %d %d 1 %d\n", hr.RefThr, hr.RstThr, ord)
 	var idx []int
 	for i, s := range hr.Steps {
 		if strings.HasPrefix(s.Stim, "#") {
